@@ -1,4 +1,5 @@
 import Syzgy.Lemmas.EvalDenote
+import Syzgy.Lemmas.ParseSpec
 /-!
 # C13 — metadata filters mean what the documented language says
 -/
@@ -33,6 +34,37 @@ theorem in_is_membership (doc : J N) (p : Path) (items : List Lit) (v : J N) (hp
     denote ops rx doc (.inList p items) = items.any (fun l => deepEq ops v (litVal ops l)) ∧
     denote ops rx doc (.notInList p items) = !denote ops rx doc (.inList p items) := by
   simp [denote, hp]
+
+/-- **The parser builds the documented tree.** For every expression of the documented language — any
+    nesting of AND / OR / NOT, comparisons, string operators, IN / NOT IN lists, EXISTS / DOES NOT EXIST,
+    paths with fields, indexes and `.length` — the parser run on its canonical token sequence
+    (parentheses only where precedence requires them) returns exactly `e.ast` and consumes every token.
+    `nok` is the number-literal oracle (`strconv.ParseFloat`); `e.OK` says the literals are valid and list
+    items are numbers or strings. The lexer (text to tokens) is tied by correspondence, not proved. -/
+theorem parser_builds_documented_tree (nok : NumOK) (e : Expr) (he : e.OK nok) (fuel : Nat) (hf : e.need + 2 ≤ fuel) :
+    parseSrc (listSrc (e.toks 0)) nok fuel = .ok e.ast :=
+  parse_canonical nok e he fuel hf
+
+/-- **end to end on tokens**: the filter built from the canonical tokens of a well-typed expression
+    accepts a document exactly when the expression is true of it -/
+theorem canonical_filter_is_denote (nok : NumOK) (doc : J N) (e : Expr) (he : e.OK nok) (fuel : Nat)
+    (hf : e.need + 2 ≤ fuel) (hw : wellTyped ops rx doc e = true) :
+    ∃ n, parseSrc (listSrc (e.toks 0)) nok fuel = .ok n ∧ applyFilter ops rx n (some doc) = denote ops rx doc e :=
+  ⟨e.ast, parse_canonical nok e he fuel hf, filter_accepts_iff ops rx doc e hw⟩
+
+/-- AND binds tighter than OR: the canonical text of `x OR (y AND z)` has no parentheses, that of
+    `(x OR y) AND z` needs them; with `parser_builds_documented_tree` both parse back to the tree they came from -/
+theorem and_binds_tighter_than_or (x y z : Expr) :
+    (Expr.or x (Expr.and y z)).toks 0 = x.toks 0 ++ [tk .or b!"OR"] ++ (y.toks 1 ++ [tk .and b!"AND"] ++ z.toks 2) ∧
+    (Expr.and (Expr.or x y) z).toks 0 =
+      (lp :: ((x.toks 0 ++ [tk .or b!"OR"] ++ y.toks 1) ++ [rp])) ++ [tk .and b!"AND"] ++ z.toks 2 :=
+  and_binds_tighter x y z
+
+/-- AND and OR chains associate to the left -/
+theorem chains_are_left_associative (x y z : Expr) :
+    (Expr.and (Expr.and x y) z).toks 0 = x.toks 1 ++ [tk .and b!"AND"] ++ y.toks 2 ++ [tk .and b!"AND"] ++ z.toks 2 ∧
+    (Expr.or (Expr.or x y) z).toks 0 = x.toks 0 ++ [tk .or b!"OR"] ++ y.toks 1 ++ [tk .or b!"OR"] ++ z.toks 1 :=
+  chains_associate_left x y z
 
 /-- non-vacuity: a concrete well-typed pair (`age >= 18 AND name STARTS_WITH 'J'` on a document
     with both fields), over integers as the number type -/
